@@ -6,13 +6,13 @@ from vlib import NoVerdict, log
 CFG = {
     # prop: (quick MC cfgs, thorough MC cfgs, random-trace ops, faults in random traces)
     "C07": dict(quick=["MCShim_q07"], thorough=["MCShim_q07", "MCShim_q07b", "MCShim_t"],
-                ops=["list", "signers", "sign", "add", "addhard", "remove", "removeall", "dremove", "dlock", "tick"], faults=[]),
+                ops=["list", "signers", "sign", "add", "addhard", "remove", "removeall", "dremove", "dadd", "dlock", "tick"], faults=[]),
     "C08": dict(quick=["MCShim_q08"], thorough=["MCShim_q08", "MCShim_t"],
                 ops=["list", "signers", "sign", "add", "addhard", "remove", "removeall", "lock", "unlock", "close", "dlock", "forward"], faults=["fail"]),
     "C09": dict(quick=["MCShim_q07b"], thorough=["MCShim_q07b", "MCShim_q07", "MCShim_t"],
-                ops=["list", "signers", "sign", "add", "addhard", "remove", "removeall", "dremove", "tick"], faults=[]),
+                ops=["list", "signers", "sign", "add", "addhard", "remove", "removeall", "dremove", "dadd", "tick"], faults=[]),
     "C10": dict(quick=["MCShim_q10"], thorough=["MCShim_q10", "MCShim_q07", "MCShim_t"],
-                ops=["list", "signers", "sign", "add", "addhard", "remove", "removeall", "lock", "unlock", "forward", "dremove", "dlock", "tick", "close"],
+                ops=["list", "signers", "sign", "add", "addhard", "remove", "removeall", "lock", "unlock", "forward", "dremove", "dadd", "dlock", "tick", "close"],
                 faults=["fail", "garbage", "wrongkind", "oversize", "close"]),
 }
 UNIVERSE_OF = {}   # cfg name -> text of the CONSTANTS part (read from the cfg file)
@@ -245,7 +245,7 @@ def replay(prop, path):
     universe = universe_of_cfg(cfgname)
     ops = [r["e"] for r in recs if r.get("ev") == "step" and r["e"]["op"] != "construct"]
     plan = {"universe": universe, "states": [], "labels": [], "walks": [], "fulllog": 0, "random": None, "newcases": [],
-            "replays": [{"universe": universe, "init": recs[0]["post"], "ops": ops}]}
+            "replays": [{"universe": universe, "init": recs[0]["post"], "ops": ops, "info": recs[0].get("info") or {}}]}
     wd = vlib.workdir(prop, "replay_run")
     binp = vlib.build_harness("shim", "agent/shimagent",
                               {"agent/shimagent/zz_verif_shim_test.go": os.path.join(vlib.HARNESS, "shim", "zz_verif_shim_test.go")},
